@@ -1188,3 +1188,651 @@ Proof.
   intros [H|(n & H & L)]; unfold exec_srandmember; rewrite H; [reflexivity|].
   destruct (n <? - max_random_repeat) eqn:L'; [reflexivity|lia].
 Qed.
+
+(* ================================================================== E. the same, for any database and clock
+   [sets_step] is one set command on an arbitrary database at clock [now]: exactly what
+   Exec.exec does for the names of this family (expired keys are purged first).  Everything
+   is stated through the shared semantic [view]. *)
+Definition sets_step (d : db) (now nowms : Z) (n : bytes) (args : list bytes) (hint : reply)
+  : option (reply * db) :=
+  sets_dispatch (purge d now) now nowms n args hint.
+
+(* the set a key holds at clock [now]: empty for a missing (or expired) key *)
+Definition set_of (d : db) (now : Z) (k : bytes) : list bytes := vset (view d now k).
+(* membership semantics: false for a missing key *)
+Definition mem_of (d : db) (now : Z) (k m : bytes) : bool := smem m (set_of d now k).
+Definition card_of (d : db) (now : Z) (k : bytes) : Z := zlength (set_of d now k).
+(* the key holds a value of another type *)
+Definition wrong_at (d : db) (now : Z) (k : bytes) : bool := vwrong (view d now k).
+
+Definition fresh (d : db) (now : Z) : Prop := forall k, expired d now k = false.
+
+Lemma view_fresh d now k : fresh d now -> view d now k = raw_view d k.
+Proof. intros F. unfold view, raw_view. rewrite (F k). reflexivity. Qed.
+Lemma fresh_purge d now : db_wf d -> fresh (purge d now) now.
+Proof. intros W k. apply expired_purge_false. exact W. Qed.
+Lemma fresh_ttl_le d d' now : ttl_le d' d -> fresh d now -> fresh d' now.
+Proof.
+  intros L F k. unfold expired. destruct (db_ttl d' k) as [t|] eqn:E; [|reflexivity].
+  apply L in E. specialize (F k). unfold expired in F. rewrite E in F. exact F.
+Qed.
+
+Lemma view_purge_same d now k : db_wf d -> view (purge d now) now k = view d now k.
+Proof. intros W. rewrite view_fresh by (apply fresh_purge; exact W). apply raw_view_purge. exact W. Qed.
+
+(* the bridge used by every theorem below *)
+Lemma step_bridge d now nowms n args hint r d' :
+  db_wf d -> sets_step d now nowms n args hint = Some (r, d') ->
+  sets_dispatch (purge d now) now nowms n args hint = Some (r, d') /\
+  db_wf (purge d now) /\
+  (forall k, raw_view (purge d now) k = view d now k) /\
+  (forall k, raw_view d' k = view d' now k) /\
+  (sets_ok d -> sets_ok (purge d now)).
+Proof.
+  intros W H. unfold sets_step in H. split; [exact H|]. split; [apply db_wf_purge; exact W|].
+  split; [intros k; apply raw_view_purge; exact W|]. split; [|apply sets_ok_purge].
+  intros k. symmetry. apply view_fresh.
+  eapply fresh_ttl_le; [eapply sets_dispatch_ttl_le; exact H|apply fresh_purge; exact W].
+Qed.
+
+(* dispatch by name *)
+Lemma dispatch_sadd d now nowms args hint : sets_dispatch d now nowms (B "sadd") args hint = Some (exec_sadd d args).
+Proof. reflexivity. Qed.
+Lemma dispatch_srem d now nowms args hint : sets_dispatch d now nowms (B "srem") args hint = Some (exec_srem d args).
+Proof. reflexivity. Qed.
+Lemma dispatch_sismember d now nowms args hint : sets_dispatch d now nowms (B "sismember") args hint = Some (exec_sismember d args).
+Proof. reflexivity. Qed.
+Lemma dispatch_scard d now nowms args hint : sets_dispatch d now nowms (B "scard") args hint = Some (exec_scard d args).
+Proof. reflexivity. Qed.
+Lemma dispatch_smembers d now nowms args hint : sets_dispatch d now nowms (B "smembers") args hint = Some (exec_smembers d args).
+Proof. reflexivity. Qed.
+Lemma dispatch_smove d now nowms args hint : sets_dispatch d now nowms (B "smove") args hint = Some (exec_smove d args).
+Proof. reflexivity. Qed.
+Lemma dispatch_spop d now nowms args hint : sets_dispatch d now nowms (B "spop") args hint = Some (exec_spop d args hint).
+Proof. reflexivity. Qed.
+Lemma dispatch_srandmember d now nowms args hint : sets_dispatch d now nowms (B "srandmember") args hint = Some (exec_srandmember d args hint).
+Proof. reflexivity. Qed.
+Lemma dispatch_sunion d now nowms args hint : sets_dispatch d now nowms (B "sunion") args hint = Some (exec_algebra union_all d args).
+Proof. reflexivity. Qed.
+Lemma dispatch_sinter d now nowms args hint : sets_dispatch d now nowms (B "sinter") args hint = Some (exec_algebra inter_all d args).
+Proof. reflexivity. Qed.
+Lemma dispatch_sdiff d now nowms args hint : sets_dispatch d now nowms (B "sdiff") args hint = Some (exec_algebra diff_all d args).
+Proof. reflexivity. Qed.
+Lemma dispatch_sunionstore d now nowms args hint : sets_dispatch d now nowms (B "sunionstore") args hint = Some (exec_algebra_store union_all d args).
+Proof. reflexivity. Qed.
+Lemma dispatch_sinterstore d now nowms args hint : sets_dispatch d now nowms (B "sinterstore") args hint = Some (exec_algebra_store inter_all d args).
+Proof. reflexivity. Qed.
+Lemma dispatch_sdiffstore d now nowms args hint : sets_dispatch d now nowms (B "sdiffstore") args hint = Some (exec_algebra_store diff_all d args).
+Proof. reflexivity. Qed.
+
+Lemma some_eq {A} (a b : A) : Some a = Some b -> a = b.
+Proof. intros H. inversion H. reflexivity. Qed.
+
+(* the deadline a key carries at clock [now] *)
+Definition ttl_of (d : db) (now : Z) (k : bytes) : option Z :=
+  match view d now k with Some (_, t) => t | None => None end.
+
+Lemma db_ttl_raw d k : db_wf d ->
+  db_ttl d k = match raw_view d k with Some (_, t) => t | None => None end.
+Proof.
+  intros (_ & _ & W3). unfold raw_view. destruct (db_get d k) eqn:E; [reflexivity|].
+  destruct (db_ttl d k) eqn:T; [|reflexivity]. exfalso.
+  unfold db_ttl in T. apply alookup_Some_in in T. apply W3 in T.
+  unfold db_get in E. apply alookup_None_notin in E. contradiction.
+Qed.
+
+Ltac bridge W H lem :=
+  let D := fresh "D" in let W0 := fresh "W0" in let V0 := fresh "V0" in let V1 := fresh "V1" in
+  let OK0 := fresh "OK0" in
+  destruct (step_bridge _ _ _ _ _ _ _ _ W H) as (D & W0 & V0 & V1 & OK0);
+  rewrite lem in D; apply some_eq in D;
+  unfold mem_of, card_of, set_of, wrong_at, ttl_of in *.
+
+(* ---- SADD ---- *)
+Theorem step_sadd d now nowms c k ms hint r d' :
+  db_wf d -> ms <> [] -> wrong_at d now k = false ->
+  sets_step d now nowms (B "sadd") (c :: k :: ms) hint = Some (r, d') ->
+  (forall m, mem_of d' now k m = mem_of d now k m || smem m ms) /\
+  (forall k', k' <> k -> view d' now k' = view d now k') /\
+  r = RInt (card_of d' now k - card_of d now k) /\
+  view d' now k = Some (VSet (set_of d' now k), ttl_of d now k).
+Proof.
+  intros W Hms Hw H. bridge W H dispatch_sadd. rewrite <- V0 in Hw.
+  destruct (sadd_raw (purge d now) c k ms r d' Hms Hw D) as (A1 & A2 & A3 & A4).
+  repeat split.
+  - intros m. rewrite <- V0, <- V1. apply A1.
+  - intros k' N. rewrite <- V0, <- V1. apply A2. exact N.
+  - rewrite <- V0, <- V1. exact A3.
+  - rewrite <- V0, <- !V1. rewrite <- (db_ttl_raw _ k W0). exact A4.
+Qed.
+
+Theorem step_sadd_one d now nowms c k m hint r d' :
+  db_wf d -> wrong_at d now k = false ->
+  sets_step d now nowms (B "sadd") [c; k; m] hint = Some (r, d') ->
+  r = RInt (if mem_of d now k m then 0 else 1).
+Proof.
+  intros W Hw H. bridge W H dispatch_sadd. rewrite <- V0 in Hw. rewrite <- V0.
+  apply (sadd_one_raw (purge d now) c k m r d' Hw D).
+Qed.
+
+(* ---- SREM ---- *)
+Theorem step_srem d now nowms c k ms hint r d' :
+  db_wf d -> ms <> [] -> wrong_at d now k = false ->
+  sets_step d now nowms (B "srem") (c :: k :: ms) hint = Some (r, d') ->
+  (forall m, mem_of d' now k m = mem_of d now k m && negb (smem m ms)) /\
+  (forall k', k' <> k -> view d' now k' = view d now k') /\
+  r = RInt (card_of d now k - card_of d' now k) /\
+  (set_of d' now k = [] -> view d' now k = None).
+Proof.
+  intros W Hms Hw H. bridge W H dispatch_srem. rewrite <- V0 in Hw.
+  destruct (srem_raw (purge d now) c k ms r d' Hms Hw D) as (A1 & A2 & A3 & A4).
+  repeat split.
+  - intros m. rewrite <- V0, <- V1. apply A1.
+  - intros k' N. rewrite <- V0, <- V1. apply A2. exact N.
+  - rewrite <- V0, <- V1. exact A3.
+  - rewrite <- !V1. exact A4.
+Qed.
+
+Theorem step_srem_one d now nowms c k m hint r d' :
+  db_wf d -> sets_ok d -> wrong_at d now k = false ->
+  sets_step d now nowms (B "srem") [c; k; m] hint = Some (r, d') ->
+  r = RInt (if mem_of d now k m then 1 else 0).
+Proof.
+  intros W OK Hw H. bridge W H dispatch_srem. rewrite <- V0 in Hw. rewrite <- V0.
+  apply (srem_one_raw (purge d now) c k m r d' (OK0 OK) Hw D).
+Qed.
+
+(* ---- the reading commands: the reply is the membership / cardinality / member list, and
+   nothing observable changes ---- *)
+Definition unchanged (d d' : db) (now : Z) : Prop := forall k, view d' now k = view d now k.
+
+Lemma unchanged_purge d now : db_wf d -> unchanged d (purge d now) now.
+Proof. intros W k. apply view_purge_same. exact W. Qed.
+
+Theorem step_sismember d now nowms c k m hint :
+  db_wf d -> wrong_at d now k = false ->
+  exists d', sets_step d now nowms (B "sismember") [c; k; m] hint
+             = Some (RInt (if mem_of d now k m then 1 else 0), d') /\ unchanged d d' now.
+Proof.
+  intros W Hw. exists (purge d now). split; [|apply unchanged_purge; exact W].
+  unfold sets_step. rewrite dispatch_sismember. unfold wrong_at, mem_of, set_of in *.
+  rewrite <- (raw_view_purge d now k W) in *. rewrite (sismember_raw _ c k m Hw). reflexivity.
+Qed.
+
+Theorem step_scard d now nowms c k hint :
+  db_wf d -> wrong_at d now k = false ->
+  exists d', sets_step d now nowms (B "scard") [c; k] hint = Some (RInt (card_of d now k), d') /\
+             unchanged d d' now.
+Proof.
+  intros W Hw. exists (purge d now). split; [|apply unchanged_purge; exact W].
+  unfold sets_step. rewrite dispatch_scard. unfold wrong_at, card_of, set_of in *.
+  rewrite <- (raw_view_purge d now k W) in *. rewrite (scard_raw _ c k Hw). reflexivity.
+Qed.
+
+Theorem step_smembers d now nowms c k hint :
+  db_wf d -> sets_ok d -> wrong_at d now k = false ->
+  exists d', sets_step d now nowms (B "smembers") [c; k] hint
+             = Some (RArr (map RBulk (set_of d now k)), d') /\
+             unchanged d d' now /\ NoDup (set_of d now k) /\
+             (forall m, In m (set_of d now k) <-> mem_of d now k m = true).
+Proof.
+  intros W OK Hw. exists (purge d now). split; [|split; [apply unchanged_purge; exact W|]].
+  - unfold sets_step. rewrite dispatch_smembers. unfold wrong_at, set_of in *.
+    rewrite <- (raw_view_purge d now k W) in *. rewrite (smembers_raw _ c k Hw). reflexivity.
+  - unfold mem_of, set_of. rewrite <- (raw_view_purge d now k W). split.
+    + apply (sets_ok_rset (purge d now) k). apply sets_ok_purge. exact OK.
+    + intros m. symmetry. apply smem_In.
+Qed.
+
+(* ---- SMOVE ---- *)
+Theorem step_smove d now nowms c src dst m hint r d' :
+  db_wf d -> wrong_at d now src = false -> wrong_at d now dst = false ->
+  sets_step d now nowms (B "smove") [c; src; dst; m] hint = Some (r, d') ->
+  if mem_of d now src m then
+    r = RInt 1 /\
+    (src = dst -> unchanged d d' now) /\
+    (src <> dst ->
+       (forall x, mem_of d' now src x = mem_of d now src x && negb (bytes_eqb x m)) /\
+       (forall x, mem_of d' now dst x = mem_of d now dst x || bytes_eqb x m) /\
+       (set_of d' now src = [] -> view d' now src = None) /\
+       (forall k', k' <> src -> k' <> dst -> view d' now k' = view d now k'))
+  else r = RInt 0 /\ unchanged d d' now.
+Proof.
+  intros W Hs Hd H. bridge W H dispatch_smove. rewrite <- V0 in Hs, Hd.
+  pose proof (smove_raw (purge d now) c src dst m r d' Hs Hd D) as A.
+  rewrite <- (V0 src). fold (rset (purge d now) src). destruct (smem m (rset (purge d now) src)).
+  - destruct A as (A1 & A2 & A3). split; [exact A1|]. split.
+    + intros E. rewrite (A2 E). apply unchanged_purge. exact W.
+    + intros N. destruct (A3 N) as (B1 & B2 & B3 & B4). repeat split.
+      * intros x. rewrite <- ?V0, <- ?V1. apply B1.
+      * intros x. rewrite <- ?V0, <- ?V1. apply B2.
+      * rewrite <- !V1. exact B3.
+      * intros k' N1 N2. rewrite <- ?V0, <- ?V1. apply B4; assumption.
+  - destruct A as (A1 & A2). split; [exact A1|]. rewrite A2. apply unchanged_purge. exact W.
+Qed.
+
+Theorem step_smove_missing_src d now nowms c src dst m hint :
+  db_wf d -> view d now src = None ->
+  exists d', sets_step d now nowms (B "smove") [c; src; dst; m] hint = Some (RInt 0, d') /\
+             unchanged d d' now.
+Proof.
+  intros W Hv. exists (purge d now). split; [|apply unchanged_purge; exact W].
+  unfold sets_step. rewrite dispatch_smove. rewrite <- (raw_view_purge d now src W) in Hv.
+  rewrite (smove_missing_src_raw _ c src dst m Hv). reflexivity.
+Qed.
+
+(* ---- SUNION / SINTER / SDIFF: the reply is the mathematical result over the sets the keys
+   hold (missing = empty), duplicate-free, and nothing changes ---- *)
+Definition none_wrong (d : db) (now : Z) (ks : list bytes) : Prop :=
+  forall k, In k ks -> wrong_at d now k = false.
+Definition some_wrong (d : db) (now : Z) (ks : list bytes) : Prop :=
+  exists k, In k ks /\ wrong_at d now k = true.
+
+Lemma map_rset_purge d now ks : db_wf d -> map (rset (purge d now)) ks = map (set_of d now) ks.
+Proof.
+  intros W. apply map_ext. intros k. unfold rset, set_of. rewrite raw_view_purge by exact W. reflexivity.
+Qed.
+
+Lemma none_wrong_raw d now ks : db_wf d -> none_wrong d now ks ->
+  forall k, In k ks -> vwrong (raw_view (purge d now) k) = false.
+Proof. intros W H k Hk. rewrite raw_view_purge by exact W. apply H. exact Hk. Qed.
+Lemma some_wrong_raw d now ks : db_wf d -> some_wrong d now ks ->
+  exists k, In k ks /\ vwrong (raw_view (purge d now) k) = true.
+Proof. intros W (k & Hk & Hw). exists k. rewrite raw_view_purge by exact W. split; assumption. Qed.
+
+Lemma step_algebra n op d now nowms c ks hint :
+  (forall d0 args, sets_dispatch d0 now nowms n args hint = Some (exec_algebra op d0 args)) ->
+  db_wf d -> ks <> [] -> none_wrong d now ks ->
+  exists d', sets_step d now nowms n (c :: ks) hint
+             = Some (RArr (map RBulk (op (map (set_of d now) ks))), d') /\ unchanged d d' now.
+Proof.
+  intros Hn W N H. exists (purge d now). split; [|apply unchanged_purge; exact W].
+  unfold sets_step. rewrite Hn. rewrite (algebra_raw op _ c ks N (none_wrong_raw d now ks W H)).
+  rewrite map_rset_purge by exact W. reflexivity.
+Qed.
+
+Lemma step_algebra_wrong n op d now nowms c ks hint :
+  (forall d0 args, sets_dispatch d0 now nowms n args hint = Some (exec_algebra op d0 args)) ->
+  db_wf d -> some_wrong d now ks ->
+  exists d', sets_step d now nowms n (c :: ks) hint = Some (err_wrongtype, d') /\ unchanged d d' now.
+Proof.
+  intros Hn W H. exists (purge d now). split; [|apply unchanged_purge; exact W].
+  unfold sets_step. rewrite Hn. rewrite (algebra_wrong_raw op _ c ks (some_wrong_raw d now ks W H)).
+  reflexivity.
+Qed.
+
+Lemma set_of_nodup d now k : sets_ok d -> NoDup (set_of d now k).
+Proof.
+  intros OK. unfold set_of, view. destruct (db_get d k) as [v|] eqn:E; [|constructor].
+  destruct (expired d now k); [constructor|]. destruct v; try constructor. apply (OK k _ E).
+Qed.
+
+Theorem step_sunion d now nowms c ks hint :
+  db_wf d -> ks <> [] -> none_wrong d now ks ->
+  exists res d',
+    sets_step d now nowms (B "sunion") (c :: ks) hint = Some (RArr (map RBulk res), d') /\
+    unchanged d d' now /\ NoDup res /\
+    (forall m, In m res <-> exists k, In k ks /\ mem_of d now k m = true).
+Proof.
+  intros W N H. destruct (step_algebra (B "sunion") union_all d now nowms c ks hint
+                            (fun d0 args => dispatch_sunion d0 now nowms args hint) W N H) as (d' & E & U).
+  exists (union_all (map (set_of d now) ks)), d'. split; [exact E|]. split; [exact U|].
+  split; [apply NoDup_union_all|]. intros m. rewrite union_keys. unfold mem_of.
+  split; intros (k & Hk & Hm); exists k; (split; [exact Hk|]); apply smem_In; exact Hm.
+Qed.
+
+Theorem step_sinter d now nowms c ks hint :
+  db_wf d -> sets_ok d -> ks <> [] -> none_wrong d now ks ->
+  exists res d',
+    sets_step d now nowms (B "sinter") (c :: ks) hint = Some (RArr (map RBulk res), d') /\
+    unchanged d d' now /\ NoDup res /\
+    (forall m, In m res <-> forall k, In k ks -> mem_of d now k m = true).
+Proof.
+  intros W OK N H. destruct (step_algebra (B "sinter") inter_all d now nowms c ks hint
+                            (fun d0 args => dispatch_sinter d0 now nowms args hint) W N H) as (d' & E & U).
+  exists (inter_all (map (set_of d now) ks)), d'. split; [exact E|]. split; [exact U|]. split.
+  - apply NoDup_inter_all. intros s Hs. apply in_map_iff in Hs as (k & <- & _). apply set_of_nodup. exact OK.
+  - intros m. rewrite (inter_keys _ ks m N). unfold mem_of.
+    split; intros Hm k Hk; apply smem_In; apply Hm; exact Hk.
+Qed.
+
+Theorem step_sdiff d now nowms c k ks hint :
+  db_wf d -> sets_ok d -> none_wrong d now (k :: ks) ->
+  exists res d',
+    sets_step d now nowms (B "sdiff") (c :: k :: ks) hint = Some (RArr (map RBulk res), d') /\
+    unchanged d d' now /\ NoDup res /\
+    (forall m, In m res <-> mem_of d now k m = true /\ forall k', In k' ks -> mem_of d now k' m = false).
+Proof.
+  intros W OK H. destruct (step_algebra (B "sdiff") diff_all d now nowms c (k :: ks) hint
+                            (fun d0 args => dispatch_sdiff d0 now nowms args hint) W ltac:(discriminate) H)
+    as (d' & E & U).
+  exists (diff_all (map (set_of d now) (k :: ks))), d'. split; [exact E|]. split; [exact U|]. split.
+  - apply NoDup_diff_all. intros s Hs. apply in_map_iff in Hs as (k0 & <- & _). apply set_of_nodup. exact OK.
+  - intros m. rewrite diff_keys. unfold mem_of. rewrite smem_In. split; intros [H1 H2]; (split; [exact H1|]).
+    + intros k' Hk'. apply smem_false. apply H2. exact Hk'.
+    + intros k' Hk'. apply smem_false. apply H2. exact Hk'.
+Qed.
+
+Theorem step_algebra_wrongtype d now nowms n c ks hint :
+  In n [B "sunion"; B "sinter"; B "sdiff"] -> db_wf d -> some_wrong d now ks ->
+  exists d', sets_step d now nowms n (c :: ks) hint = Some (err_wrongtype, d') /\ unchanged d d' now.
+Proof.
+  intros Hn W H. cbn in Hn. destruct Hn as [<-|[<-|[<-|[]]]].
+  - apply (step_algebra_wrong _ union_all); [intros; apply dispatch_sunion|exact W|exact H].
+  - apply (step_algebra_wrong _ inter_all); [intros; apply dispatch_sinter|exact W|exact H].
+  - apply (step_algebra_wrong _ diff_all); [intros; apply dispatch_sdiff|exact W|exact H].
+Qed.
+
+(* ---- the STORE forms: the destination afterwards holds exactly the result (no key when it is
+   empty, no deadline otherwise), no other key changes, the reply is the cardinality ---- *)
+Lemma step_store n op d now nowms c dst ks hint r d' :
+  (forall d0 args, sets_dispatch d0 now nowms n args hint = Some (exec_algebra_store op d0 args)) ->
+  db_wf d -> ks <> [] -> none_wrong d now ks ->
+  sets_step d now nowms n (c :: dst :: ks) hint = Some (r, d') ->
+  let res := op (map (set_of d now) ks) in
+  r = RInt (zlength res) /\
+  view d' now dst = match res with [] => None | _ => Some (VSet res, None) end /\
+  (forall m, mem_of d' now dst m = smem m res) /\
+  (forall k', k' <> dst -> view d' now k' = view d now k').
+Proof.
+  intros Hn W N H E. cbn zeta.
+  destruct (step_bridge _ _ _ _ _ _ _ _ W E) as (D & W0 & V0 & V1 & OK0).
+  rewrite Hn in D. apply some_eq in D.
+  rewrite (store_raw op _ c dst ks N (none_wrong_raw d now ks W H)) in D.
+  rewrite map_rset_purge in D by exact W.
+  apply pair_eq in D as [Hr Hd]. split; [exact Hr|]. split; [|split].
+  - rewrite <- V1, Hd. apply raw_view_store_same.
+  - intros m. unfold mem_of, set_of. rewrite <- V1, Hd. fold (rset (store_set (purge d now) dst (op (map (set_of d now) ks))) dst).
+    rewrite rset_store_same. reflexivity.
+  - intros k' Nk. rewrite <- V1, <- V0, Hd. apply raw_view_store_other. exact Nk.
+Qed.
+
+Lemma step_store_wrong n op d now nowms c dst ks hint :
+  (forall d0 args, sets_dispatch d0 now nowms n args hint = Some (exec_algebra_store op d0 args)) ->
+  db_wf d -> some_wrong d now ks ->
+  exists d', sets_step d now nowms n (c :: dst :: ks) hint = Some (err_wrongtype, d') /\ unchanged d d' now.
+Proof.
+  intros Hn W H. exists (purge d now). split; [|apply unchanged_purge; exact W].
+  unfold sets_step. rewrite Hn. rewrite (store_wrong_raw op _ c dst ks (some_wrong_raw d now ks W H)).
+  reflexivity.
+Qed.
+
+Definition stored (d d' : db) (now : Z) (dst : bytes) (res : list bytes) (r : reply) : Prop :=
+  r = RInt (zlength res) /\
+  view d' now dst = match res with [] => None | _ => Some (VSet res, None) end /\
+  (forall m, mem_of d' now dst m = smem m res) /\
+  (forall k', k' <> dst -> view d' now k' = view d now k').
+
+Theorem step_sunionstore d now nowms c dst ks hint r d' :
+  db_wf d -> ks <> [] -> none_wrong d now ks ->
+  sets_step d now nowms (B "sunionstore") (c :: dst :: ks) hint = Some (r, d') ->
+  exists res, stored d d' now dst res r /\ NoDup res /\
+    (forall m, In m res <-> exists k, In k ks /\ mem_of d now k m = true).
+Proof.
+  intros W N H E. exists (union_all (map (set_of d now) ks)). split.
+  - apply (step_store (B "sunionstore") union_all d now nowms c dst ks hint r d'
+             (fun d0 args => dispatch_sunionstore d0 now nowms args hint) W N H E).
+  - split; [apply NoDup_union_all|]. intros m. rewrite union_keys. unfold mem_of.
+    split; intros (k & Hk & Hm); exists k; (split; [exact Hk|]); apply smem_In; exact Hm.
+Qed.
+
+Theorem step_sinterstore d now nowms c dst ks hint r d' :
+  db_wf d -> sets_ok d -> ks <> [] -> none_wrong d now ks ->
+  sets_step d now nowms (B "sinterstore") (c :: dst :: ks) hint = Some (r, d') ->
+  exists res, stored d d' now dst res r /\ NoDup res /\
+    (forall m, In m res <-> forall k, In k ks -> mem_of d now k m = true).
+Proof.
+  intros W OK N H E. exists (inter_all (map (set_of d now) ks)). split.
+  - apply (step_store (B "sinterstore") inter_all d now nowms c dst ks hint r d'
+             (fun d0 args => dispatch_sinterstore d0 now nowms args hint) W N H E).
+  - split.
+    + apply NoDup_inter_all. intros s Hs. apply in_map_iff in Hs as (k & <- & _). apply set_of_nodup. exact OK.
+    + intros m. rewrite (inter_keys _ ks m N). unfold mem_of.
+      split; intros Hm k Hk; apply smem_In; apply Hm; exact Hk.
+Qed.
+
+Theorem step_sdiffstore d now nowms c dst k ks hint r d' :
+  db_wf d -> sets_ok d -> none_wrong d now (k :: ks) ->
+  sets_step d now nowms (B "sdiffstore") (c :: dst :: k :: ks) hint = Some (r, d') ->
+  exists res, stored d d' now dst res r /\ NoDup res /\
+    (forall m, In m res <-> mem_of d now k m = true /\ forall k', In k' ks -> mem_of d now k' m = false).
+Proof.
+  intros W OK H E. exists (diff_all (map (set_of d now) (k :: ks))). split.
+  - apply (step_store (B "sdiffstore") diff_all d now nowms c dst (k :: ks) hint r d'
+             (fun d0 args => dispatch_sdiffstore d0 now nowms args hint) W ltac:(discriminate) H E).
+  - split.
+    + apply NoDup_diff_all. intros s Hs. apply in_map_iff in Hs as (k0 & <- & _). apply set_of_nodup. exact OK.
+    + intros m. rewrite diff_keys. unfold mem_of. rewrite smem_In. split; intros [H1 H2]; (split; [exact H1|]).
+      * intros k' Hk'. apply smem_false. apply H2. exact Hk'.
+      * intros k' Hk'. apply smem_false. apply H2. exact Hk'.
+Qed.
+
+Theorem step_store_wrongtype d now nowms n c dst ks hint :
+  In n [B "sunionstore"; B "sinterstore"; B "sdiffstore"] -> db_wf d -> some_wrong d now ks ->
+  exists d', sets_step d now nowms n (c :: dst :: ks) hint = Some (err_wrongtype, d') /\ unchanged d d' now.
+Proof.
+  intros Hn W H. cbn in Hn. destruct Hn as [<-|[<-|[<-|[]]]].
+  - apply (step_store_wrong _ union_all); [intros; apply dispatch_sunionstore|exact W|exact H].
+  - apply (step_store_wrong _ inter_all); [intros; apply dispatch_sinterstore|exact W|exact H].
+  - apply (step_store_wrong _ diff_all); [intros; apply dispatch_sdiffstore|exact W|exact H].
+Qed.
+
+(* ---- SPOP: the accepted reply consists of distinct current members, of the right number, and
+   exactly those are gone afterwards ---- *)
+Theorem step_spop_count d now nowms c k cnt n hint r d' :
+  db_wf d -> sets_ok d -> atoi64 cnt = Some n -> 0 <= n -> wrong_at d now k = false ->
+  sets_step d now nowms (B "spop") [c; k; cnt] hint = Some (r, d') ->
+  exists ms,
+    r = RArr (map RBulk ms) /\ NoDup ms /\
+    (forall m, In m ms -> mem_of d now k m = true) /\
+    zlength ms = Z.min n (card_of d now k) /\
+    (forall x, mem_of d' now k x = mem_of d now k x && negb (smem x ms)) /\
+    (set_of d' now k = [] -> view d' now k = None) /\
+    (forall k', k' <> k -> view d' now k' = view d now k').
+Proof.
+  intros W OK Hc Hn Hw H. bridge W H dispatch_spop. rewrite <- V0 in Hw.
+  destruct (spop_count_raw (purge d now) c k cnt n hint r d' (OK0 OK) Hc Hn Hw D)
+    as (ms & A1 & A2 & A3 & A4 & A5 & A6 & A7).
+  exists ms. split; [exact A1|]. split; [exact A2|]. repeat split.
+  - intros m Hm. rewrite <- V0. apply A3. exact Hm.
+  - rewrite <- V0. exact A4.
+  - intros x. rewrite <- V0, <- V1. apply A5.
+  - rewrite <- !V1. exact A6.
+  - intros k' N. rewrite <- V0, <- V1. apply A7. exact N.
+Qed.
+
+(* the acceptor refuses nothing the reference allows *)
+Theorem step_spop_count_accepts d now nowms c k cnt n ms :
+  db_wf d -> atoi64 cnt = Some n -> 0 <= n -> wrong_at d now k = false ->
+  NoDup ms -> (forall m, In m ms -> mem_of d now k m = true) ->
+  zlength ms = Z.min n (card_of d now k) ->
+  exists d', sets_step d now nowms (B "spop") [c; k; cnt] (RArr (map RBulk ms))
+             = Some (RArr (map RBulk ms), d').
+Proof.
+  intros W Hc Hn Hw ND Hin Hl. unfold sets_step. rewrite dispatch_spop.
+  unfold wrong_at, mem_of, card_of, set_of in *. rewrite <- (raw_view_purge d now k W) in *.
+  pose proof (spop_count_accepts (purge d now) c k cnt n ms Hc Hn Hw ND Hin Hl) as A.
+  destruct (exec_spop (purge d now) [c; k; cnt] (RArr (map RBulk ms))) as [r d'].
+  cbn [fst] in A. subst r. exists d'. reflexivity.
+Qed.
+
+Theorem step_spop_bad_count d now nowms c k cnt hint :
+  db_wf d -> (atoi64 cnt = None \/ exists n, atoi64 cnt = Some n /\ n < 0) ->
+  exists d', sets_step d now nowms (B "spop") [c; k; cnt] hint = Some (err_other, d') /\ unchanged d d' now.
+Proof.
+  intros W H. exists (purge d now). split; [|apply unchanged_purge; exact W].
+  unfold sets_step. rewrite dispatch_spop, (spop_bad_count_raw _ c k cnt hint H). reflexivity.
+Qed.
+
+Theorem step_spop_one d now nowms c k hint r d' :
+  db_wf d -> wrong_at d now k = false ->
+  sets_step d now nowms (B "spop") [c; k] hint = Some (r, d') ->
+  (set_of d now k = [] -> r = RNil /\ unchanged d d' now) /\
+  (set_of d now k <> [] ->
+     exists m, r = RBulk m /\ mem_of d now k m = true /\
+       (forall x, mem_of d' now k x = mem_of d now k x && negb (bytes_eqb x m)) /\
+       (set_of d' now k = [] -> view d' now k = None) /\
+       (forall k', k' <> k -> view d' now k' = view d now k')).
+Proof.
+  intros W Hw H. bridge W H dispatch_spop. rewrite <- V0 in Hw.
+  destruct (spop_one_raw (purge d now) c k hint r d' Hw D) as (A & C). rewrite <- V0. split.
+  - intros E. destruct (A E) as [-> ->]. split; [reflexivity|apply unchanged_purge; exact W].
+  - intros N. destruct (C N) as (m & B1 & B2 & B3 & B4 & B5). exists m.
+    split; [exact B1|]. split; [exact B2|]. repeat split.
+    + intros x. rewrite <- ?V0, <- V1. apply B3.
+    + rewrite <- !V1. exact B4.
+    + intros k' Nk. rewrite <- V0, <- V1. apply B5. exact Nk.
+Qed.
+
+Theorem step_spop_one_accepts d now nowms c k m :
+  db_wf d -> wrong_at d now k = false -> mem_of d now k m = true ->
+  exists d', sets_step d now nowms (B "spop") [c; k] (RBulk m) = Some (RBulk m, d').
+Proof.
+  intros W Hw Hm. unfold sets_step. rewrite dispatch_spop.
+  unfold wrong_at, mem_of, set_of in *. rewrite <- (raw_view_purge d now k W) in *.
+  pose proof (spop_one_accepts (purge d now) c k m Hw Hm) as A.
+  destruct (exec_spop (purge d now) [c; k] (RBulk m)) as [r d'].
+  cbn [fst] in A. subst r. exists d'. reflexivity.
+Qed.
+
+(* ---- SRANDMEMBER: only current members, the right number, nothing changes ---- *)
+Theorem step_srandmember_one d now nowms c k hint r d' :
+  db_wf d -> wrong_at d now k = false ->
+  sets_step d now nowms (B "srandmember") [c; k] hint = Some (r, d') ->
+  unchanged d d' now /\
+  (set_of d now k = [] -> r = RNil) /\
+  (set_of d now k <> [] -> exists m, r = RBulk m /\ mem_of d now k m = true).
+Proof.
+  intros W Hw H. bridge W H dispatch_srandmember. rewrite <- V0 in Hw.
+  destruct (srandmember_one_raw (purge d now) c k hint r d' Hw D) as (A1 & A2 & A3).
+  rewrite <- V0. split; [rewrite A1; apply unchanged_purge; exact W|]. split; [exact A2|exact A3].
+Qed.
+
+Theorem step_srandmember_count d now nowms c k cnt n hint r d' :
+  db_wf d -> sets_ok d -> atoi64 cnt = Some n -> - max_random_repeat <= n -> wrong_at d now k = false ->
+  sets_step d now nowms (B "srandmember") [c; k; cnt] hint = Some (r, d') ->
+  unchanged d d' now /\
+  exists ms,
+    r = RArr (map RBulk ms) /\
+    (forall m, In m ms -> mem_of d now k m = true) /\
+    (0 <= n -> NoDup ms /\ zlength ms = Z.min n (card_of d now k)) /\
+    (n < 0 -> zlength ms = if card_of d now k =? 0 then 0 else - n).
+Proof.
+  intros W OK Hc Hn Hw H. bridge W H dispatch_srandmember. rewrite <- V0 in Hw.
+  destruct (srandmember_count_raw (purge d now) c k cnt n hint r d' (OK0 OK) Hc Hn Hw D)
+    as (A1 & ms & A2 & A3 & A4 & A5).
+  split; [rewrite A1; apply unchanged_purge; exact W|].
+  exists ms. rewrite <- V0. split; [exact A2|]. split; [exact A3|]. split; [exact A4|exact A5].
+Qed.
+
+Theorem step_srandmember_count_accepts d now nowms c k cnt n ms :
+  db_wf d -> atoi64 cnt = Some n -> - max_random_repeat <= n -> wrong_at d now k = false ->
+  (forall m, In m ms -> mem_of d now k m = true) ->
+  (0 <= n -> NoDup ms /\ zlength ms = Z.min n (card_of d now k)) ->
+  (n < 0 -> zlength ms = if card_of d now k =? 0 then 0 else - n) ->
+  exists d', sets_step d now nowms (B "srandmember") [c; k; cnt] (RArr (map RBulk ms))
+             = Some (RArr (map RBulk ms), d').
+Proof.
+  intros W Hc Hn Hw Hin Hp Hneg. unfold sets_step. rewrite dispatch_srandmember.
+  unfold wrong_at, mem_of, card_of, set_of in *. rewrite <- (raw_view_purge d now k W) in *.
+  pose proof (srandmember_count_accepts (purge d now) c k cnt n ms Hc Hn Hw Hin Hp Hneg) as A.
+  destruct (exec_srandmember (purge d now) [c; k; cnt] (RArr (map RBulk ms))) as [r d'].
+  cbn [fst] in A. subst r. exists d'. reflexivity.
+Qed.
+
+(* the repaired bound: a count below -max_random_repeat (or not an integer) is refused *)
+Theorem step_srandmember_bad_count d now nowms c k cnt hint :
+  db_wf d -> (atoi64 cnt = None \/ exists n, atoi64 cnt = Some n /\ n < - max_random_repeat) ->
+  exists d', sets_step d now nowms (B "srandmember") [c; k; cnt] hint = Some (err_other, d') /\
+             unchanged d d' now.
+Proof.
+  intros W H. exists (purge d now). split; [|apply unchanged_purge; exact W].
+  unfold sets_step. rewrite dispatch_srandmember, (srandmember_bad_count_raw _ c k cnt hint H). reflexivity.
+Qed.
+
+(* ---- WRONGTYPE: a key of another type gives that error; an error never changes anything ---- *)
+Theorem step_error_unchanged d now nowms n args hint e d' :
+  db_wf d -> sets_step d now nowms n args hint = Some (RErr e, d') -> unchanged d d' now.
+Proof.
+  intros W H. unfold sets_step in H. apply sets_dispatch_error_unchanged in H. subst d'.
+  apply unchanged_purge. exact W.
+Qed.
+
+Theorem step_wrongtype_key d now nowms c k m ms dst hint :
+  db_wf d -> wrong_at d now k = true ->
+  let wt n args := sets_step d now nowms n args hint = Some (err_wrongtype, purge d now) in
+  wt (B "sadd") (c :: k :: m :: ms) /\ wt (B "srem") (c :: k :: m :: ms) /\
+  wt (B "sismember") [c; k; m] /\ wt (B "scard") [c; k] /\ wt (B "smembers") [c; k] /\
+  wt (B "smove") [c; k; dst; m] /\ wt (B "spop") [c; k] /\ wt (B "srandmember") [c; k].
+Proof.
+  intros W Hw. cbn zeta. unfold wrong_at in Hw. rewrite <- (raw_view_purge d now k W) in Hw.
+  destruct (wrongtype_key_raw (purge d now) c k m ms dst hint Hw) as (A1 & A2 & A3 & A4 & A5 & A6 & A7 & A8).
+  unfold sets_step.
+  rewrite dispatch_sadd, dispatch_srem, dispatch_sismember, dispatch_scard, dispatch_smembers,
+    dispatch_smove, dispatch_spop, dispatch_srandmember.
+  rewrite A1, A2, A3, A4, A5, A6, A7, A8. repeat split; reflexivity.
+Qed.
+
+Theorem step_smove_wrong_dst d now nowms c src dst m s t hint :
+  db_wf d -> view d now src = Some (VSet s, t) -> wrong_at d now dst = true ->
+  sets_step d now nowms (B "smove") [c; src; dst; m] hint = Some (err_wrongtype, purge d now).
+Proof.
+  intros W Hs Hd. unfold sets_step, wrong_at in *. rewrite dispatch_smove.
+  rewrite <- (raw_view_purge d now src W) in Hs. rewrite <- (raw_view_purge d now dst W) in Hd.
+  rewrite (smove_wrong_dst_raw _ c src dst m s t Hs Hd). reflexivity.
+Qed.
+
+(* ---- the invariants, for every step and every program ---- *)
+Theorem step_invariants d now nowms n args hint r d' :
+  db_wf d -> sets_ok d -> sets_step d now nowms n args hint = Some (r, d') ->
+  db_wf d' /\ sets_ok d' /\ reply_wf r = true.
+Proof.
+  intros W OK H. unfold sets_step in H. split; [|split].
+  - eapply sets_dispatch_wf_pres; [apply db_wf_purge; exact W|exact H].
+  - eapply sets_dispatch_sets_ok; [apply sets_ok_purge; exact OK|exact H].
+  - eapply sets_dispatch_reply_wf; exact H.
+Qed.
+
+(* a program: any sequence of commands with their clocks and observed replies; a step whose
+   name is not a set command leaves the database alone *)
+Definition sstep := (Z * Z * bytes * list bytes * reply)%type.
+Definition run_step (d : db) (s : sstep) : db :=
+  let '(now, nowms, n, args, hint) := s in
+  match sets_step d now nowms n args hint with Some (_, d') => d' | None => d end.
+Definition run (prog : list sstep) (d : db) : db := fold_left run_step prog d.
+
+Lemma run_step_invariants d s : db_wf d -> sets_ok d -> db_wf (run_step d s) /\ sets_ok (run_step d s).
+Proof.
+  intros W OK. destruct s as [[[[now nowms] n] args] hint]. unfold run_step.
+  destruct (sets_step d now nowms n args hint) as [[r d']|] eqn:E; [|split; assumption].
+  destruct (step_invariants d now nowms n args hint r d' W OK E) as (W' & OK' & _). split; assumption.
+Qed.
+
+Theorem run_invariants prog : forall d, db_wf d -> sets_ok d -> db_wf (run prog d) /\ sets_ok (run prog d).
+Proof.
+  unfold run. induction prog as [|s prog IH]; intros d W OK; cbn [fold_left]; [split; assumption|].
+  destruct (run_step_invariants d s W OK) as [W' OK']. apply IH; assumption.
+Qed.
+
+(* an emptied set ceases to exist: whatever the program, a key that holds a set holds a
+   duplicate-free set with at least one member *)
+Theorem emptied_set_removed prog d now k s t :
+  db_wf d -> sets_ok d -> view (run prog d) now k = Some (VSet s, t) -> NoDup s /\ s <> [].
+Proof.
+  intros W OK H. destruct (run_invariants prog d W OK) as (_ & OK').
+  unfold view in H. destruct (db_get (run prog d) k) as [v|] eqn:E; [|discriminate].
+  destruct (expired (run prog d) now k); [discriminate|]. inversion H; subst.
+  apply (OK' k _ E).
+Qed.
+
+(* ---- the family inside Exec.exec ---- *)
+Definition sets_names : list bytes :=
+  [B "sadd"; B "srem"; B "sismember"; B "scard"; B "smembers"; B "smove"; B "spop"; B "srandmember";
+   B "sunion"; B "sinter"; B "sdiff"; B "sunionstore"; B "sinterstore"; B "sdiffstore"].
+
+Lemma sets_names_handled n d now nowms args hint :
+  In n sets_names -> sets_dispatch d now nowms n args hint <> None.
+Proof.
+  intros H. cbn in H.
+  repeat (destruct H as [<-|H]; [discriminate|]). destruct H.
+Qed.
